@@ -58,3 +58,36 @@ def _guard(ob, case):
 
 
 scenario('C16', 'kind_mismatch', 'torchtt.manifold.riemannian_projection', quick=[dict(case='riemann_kinds')], expect='raise', documented=('IncompatibleTypes',), replay='misuse')(_guard)
+
+
+@scenario('C16', 'gradient.structure', ['torchtt.manifold.riemannian_gradient', 'torchtt.manifold._delta2cores'],
+          quick=[dict(d=2, ttm=False, f='quadratic'), dict(d=2, ttm=True, f='linear')],
+          thorough=[dict(d=d, ttm=t, f=f) for d in (2, 3) for t in (False, True) for f in ('quadratic', 'linear')], replay=None, max_paths=800)
+def gradient_structure(ob, d, ttm, f):
+    """riemannian_gradient(x, func): result well formed with the shape of x and ranks <= 2 R_x; x untouched; func is evaluated on a TT
+    object that depends differentiably on the tangent-space parameters (the AD part is transparent)"""
+    import ast
+    ex = ob.ex
+    x = ob.tt('x', d, ttm=ttm, dtype='float64')
+    for k in range(1, d):
+        nl = x.N_[k - 1] * (x.M_[k - 1] if ttm else 1)
+        nr = x.N_[k] * (x.M_[k] if ttm else 1)
+        ex.assume(x.R_[k] <= x.R_[k - 1] * nl)
+        ex.assume(x.R_[k] <= nr * x.R_[k + 1])
+    mod = ex.module('torchtt.manifold')
+    src = {'quadratic': "lambda t: (t * t).sum()", 'linear': "lambda t: t.sum()"}[f]
+    fn = I.SFunc(ast.parse(src, mode='eval').body, mod, None)
+    fn.closure = {}
+    r = ex.call(mod.env['riemannian_gradient'], [x, fn])
+    ob.wf(r)
+    fl = fields(ob, r)
+    all_eq(ob, 'N', fl['N'], x.N_)
+    ob.prove('kind', fl['is_ttm'] is ttm)
+    R = fl['R']
+    if len(R) == d + 1:
+        for k in range(1, d):
+            ob.prove('rank%d_le_twice' % k, to_int(R[k]) <= 2 * x.R_[k], 'rank')
+    bw = [e for e in ex.events if e[0] == 'backward']
+    ob.prove('one_backward_pass', len(bw) == 1)
+    ob.prove('no_graph_cut_before_backward', not ex.grad_cuts, 'transparent')
+    ob.frame()
